@@ -95,6 +95,11 @@ def cmd_events(cmd, hv):
         return [("%s %s %s" % (ev, x, coq_bytes(cmd[2])), "res")]
     if name == "write":
         return [("Write %s %s" % (x, coq_bytes(cmd[2])), "res")]
+    if name == "write_bg":
+        ok = hv.w[sid] and not hv.gone[sid]
+        if ok:
+            hv.split[sid] = True
+        return [(None, "none" if ok else "invalid")]
     if name == "read":
         return [("Read %s %d" % (x, cmd[2]), "res")]
     if name == "peek":
@@ -156,6 +161,8 @@ def to_model(case, obs):
     evs, probes = [], []
     hv = Halves()
     healthy = mode == "remote"          # until the first hold
+    wbg = {}                            # sid -> data of a write_all task that has not completed yet
+    wdone = {b[2]: b[0] for b in obs.get("bg", [])}
     for k in range(npro, len(case["steps"])):
         st = case["steps"][k]
         if mode == "remote":
@@ -188,6 +195,10 @@ def to_model(case, obs):
                 if healthy:
                     evs.append("MatureAll")
             for i, cmd in enumerate(st.get("hosts", {}).get(str(h), [])):
+                if cmd[0] == "write_bg" and hv.w[cmd[1]] and not hv.gone[cmd[1]]:
+                    if mode != "remote":
+                        problems.append("write_bg is only supported on remote pairs")
+                    wbg[cmd[1]] = cmd[2]
                 for ev, exp in cmd_events(cmd, hv):
                     if ev is None:
                         probes.append((None, exp, (k, h, i)))
@@ -196,6 +207,21 @@ def to_model(case, obs):
                     evs.append(ev)
                     if mode == "remote" and healthy:
                         evs.append("MatureAll")
+            # tasks parked in write_all run after the interpreter yields (first poll) and whenever the
+            # flow-control waker fires (a credit came back, or the connection was reset)
+            for sid in sorted(wbg):
+                if (chost if sid == CLIENT_SID else shost) != h:
+                    continue
+                kc = wdone.get(sid)
+                if kc is not None and kc < k:
+                    del wbg[sid]
+                    continue
+                probes.append((len(evs), "wbg", (k, sid)))
+                evs.append("Write %s %s" % (side_of(sid), coq_bytes(wbg[sid])))
+                if healthy:
+                    evs.append("MatureAll")
+                if kc == k:
+                    del wbg[sid]
         if mode != "remote":
             evs.append("LoopStep")
         probes.append((len(evs), "post", k))
@@ -233,6 +259,16 @@ def compare(case, obs, model, probes):
     _, chost, shost = prologue(cfg)
     res = {(r[0], r[1], r[2]): r[3] for r in obs["res"]}
     for idx, exp, key in probes:
+        if exp == "wbg":
+            k, sid = key
+            done = [b for b in obs.get("bg", []) if b[2] == sid and b[0] == k]
+            want = expect_from_model(model[idx])
+            if not done:
+                if want != "pending":
+                    return "step %d: the task blocked in write_all on stream %d does not complete, model %s" % (k, sid, want)
+            elif done[0][3] != want:
+                return "step %d: write_all on stream %d completed with %s, model %s" % (k, sid, done[0][3], want)
+            continue
         if exp == "post":
             tag, nums, lists = model[idx]
             links, counts = obs["post"][key]
@@ -529,6 +565,47 @@ def gen_halfclose(rng, mode=None):
         body.append({"ctl": [["deliver", c, s, 0]] if held else [],
                      "hosts": {str(x_host): [["read", x_sid, rn]] * 2, str(y_host): [["read", y_sid, 64]]}})
     return build_case(cfg, body, "halfclose-" + cfg["mode"])
+
+
+def gen_blocked_writer(rng):
+    """A task awaits write_all with the peer's window full (tcp_capacity unread segments); then the
+    peer reads (credits come back), or the connection is reset: the peer drops its stream / its read
+    half with the data unread, or the writer's own read half is dropped with unread inbound data.
+    The blocked write must complete (ok or error) within a few steps."""
+    cfg = base_cfg(rng, "remote")
+    c, s = hosts_of(cfg)
+    by = Bytes()
+    held = rng.random() < 0.7
+    w_host, w_sid, r_host, r_sid = (c, CLIENT_SID, s, SERVER_SID) if rng.random() < 0.5 else (s, SERVER_SID, c, CLIENT_SID)
+    cap = cfg["cap"]
+    body = []
+    wc = [["try_write", w_sid, by.take(rng.choice([1, 2]))] for _ in range(cap)]
+    how = rng.choice(["peer_drop", "peer_drop", "peer_drop_r", "peer_reads", "own_reset", "peer_drop_undelivered"])
+    rc0 = []
+    if how == "own_reset":
+        rc0 = [["try_write", r_sid, by.take(2)]]
+    body.append({"ctl": [["hold", c, s]] if held else [], "hosts": {str(w_host): wc, str(r_host): rc0}})
+    if how != "peer_drop_undelivered":
+        for _ in range(cap + 1):
+            body.append({"ctl": [["deliver", c, s, 0]] if held else [], "hosts": {}})
+    body.append({"ctl": [], "hosts": {str(w_host): [["write_bg", w_sid, by.take(rng.choice([1, 3]))]]}})
+    body.append({"ctl": [], "hosts": {}})
+    if how in ("peer_drop", "peer_drop_undelivered"):
+        act = {str(r_host): [["drop", r_sid]]}
+    elif how == "peer_drop_r":
+        act = {str(r_host): [["drop_r", r_sid]]}
+    elif how == "peer_reads":
+        act = {str(r_host): [["read", r_sid, 64], ["read", r_sid, 64]]}
+    else:
+        act = {str(w_host): [["drop_r", w_sid]]}
+    body.append({"ctl": [], "hosts": act})
+    for t in range(8):
+        hosts = {}
+        if how == "peer_reads" and t < 3:
+            hosts[str(r_host)] = [["read", r_sid, 64]]
+        body.append({"ctl": [["deliver", c, s, 0]] if held else [], "hosts": hosts})
+    body.append({"ctl": [], "hosts": {str(w_host): [["count"]], str(r_host): [["count"]]}})
+    return build_case(cfg, body, "blocked-writer")
 
 
 def gen_parked(rng, mode=None):
